@@ -13,7 +13,8 @@ from .. import gen, pool, rel, tlc
 from ..oracle import problem as PB
 
 N, P = 36, 10
-N_ARGS = {"quick": 140, "thorough": 3000}
+SIZES = {"small": (36, 10, 0.4), "wide": (60, 80, 0.5)}      # wide: support of ~14 > p0, up to 26 zero weights
+N_ARGS = {"quick": 420, "thorough": 3000}
 
 
 def _groups(kind, rng):
@@ -38,10 +39,12 @@ def run_one(item, seed, tid):
     args, doc = item["args"], item["doc"]
     est_name = args["est"]
     rng = gen.rng_for(seed, "estim", json.dumps(args, sort_keys=True))
-    X = gen.design(rng, N, P, rho=0.4)
+    N, P, rho = SIZES[args.get("size", "small")]
+    X = gen.design(rng, N, P, rho=rho)
     f = rel.Facts(tid, dict(args=args, doc=doc, seed=seed))
     loss = doc["loss"]
     fi_doc = bool(doc["intercept"])
+    nnz = 14 if args.get("size", "small") == "wide" else 3
     if loss in ("Logistic", "HingeDual"):
         y = gen.target(rng, X, "clf", offset=0.5 if args["fit_intercept"] else 0.0)
     elif loss == "Poisson":
@@ -49,9 +52,9 @@ def run_one(item, seed, tid):
     elif loss.startswith("Cox"):
         y = gen.target(rng, X, "surv")
     elif loss == "QuadraticMultiTask":
-        y = gen.target(rng, X, "reg", n_tasks=2, offset=1.0)
+        y = gen.target(rng, X, "reg", n_tasks=2, offset=1.0, nnz=nnz)
     else:
-        y = gen.target(rng, X, "reg", offset=1.5)
+        y = gen.target(rng, X, "reg", offset=1.5, nnz=nnz)
     n = N
     # ---- strength relative to the critical one of the documented objective
     yc = y - (y.mean(axis=0) if fi_doc and loss not in ("Logistic", "HingeDual", "Poisson") else 0.0)
@@ -83,9 +86,10 @@ def run_one(item, seed, tid):
         m = nblocks if wk != "wrong_length" else nblocks + 2
         weights = rng.uniform(0.5, 2.0, m)
         if wk == "zeros":
-            weights[rng.choice(m, max(1, m // 4), replace=False)] = 0.0
+            weights[rng.choice(m, max(1, m // 3 if nnz > 3 else m // 4), replace=False)] = 0.0
     tol = 1e-9
-    common = dict(tol=tol)
+    wide = args.get("size", "small") == "wide"
+    common = dict(tol=tol, max_iter=400) if wide else dict(tol=tol)
     kw = {}
     try:
         with warnings.catch_warnings():
@@ -129,9 +133,11 @@ def run_one(item, seed, tid):
                 else:
                     weights = rng.uniform(0.5, 2.0, P)
                     weights[[1, 4]] = 0.0
+                    if wide:
+                        weights[rng.choice(P, P // 3, replace=False)] = 0.0
                     po = Pn.WeightedL1(alpha, weights)
                 so = S.ProxNewton(tol=tol, fit_intercept=args["fit_intercept"]) if d == "Poisson" else \
-                    S.AndersonCD(tol=tol, fit_intercept=args["fit_intercept"])
+                    S.AndersonCD(tol=tol, fit_intercept=args["fit_intercept"], **({"max_iter": 400} if wide else {}))
                 est = skglm.GeneralizedLinearEstimator(dfo, po, so)
             Xs = sparse.csc_matrix(X) if args["storage"] == "csc" else X
             est.fit(Xs, y)
@@ -222,6 +228,10 @@ def run_one(item, seed, tid):
         f.meta["oracle_exc"] = type(e).__name__ + str(e)[:100]
         viol, sc = float("nan"), 1.0
     f.meta["viol"] = viol
+    # (the wide designs get max_iter = 400: these problems converge in a few dozen outer iterations, so a fit that
+    #  exhausts that budget is not minimising its objective)
+    crit = getattr(est, "stop_crit_", None)
+    f.meta["converged"] = bool(crit is None or float(np.max(crit)) <= 100 * tol)
     f.le("stationary", viol, scale_tol * sc)
     if pos:
         f.flag("positive_respected", bool(np.all(coef >= 0)))
@@ -242,7 +252,7 @@ def run(prop, tier, seed):
         "and the residual of the documented objective was evaluated (or the documented refusal was judged).")
     ck.cov["trusted_base"] = ["transcription of the class docstrings in specs/api/Estimator.tla", "harness/oracle",
                               "TLC 1.8"]
-    ck.assumptions = ["fits run at tol 1e-9; stationarity judged at 1e-6 * scale; tall designs (n=36, p=10)"]
+    ck.assumptions = ["fits run at tol 1e-9; stationarity judged at 1e-6 * scale; designs n=36, p=10 and n=60, p=80 (AR 0.5, support 14, up to 26 zero weights)"]
     try:
         r = tlc.run("Estimator", cfg_text="SPECIFICATION Spec\nCHECK_DEADLOCK FALSE\n",
                     simulate=f"num={N_ARGS[tier]}", depth=6, seed=seed, timeout=600)
@@ -259,7 +269,7 @@ def run(prop, tier, seed):
             seen.add(k)
             uniq.append(it)
     jobs = [(it, seed, i + 1) for i, it in enumerate(uniq)]
-    res, errs = pool.map_grouped("harness.checks.estim", "run_one", jobs, key=lambda j: j[0]["args"]["est"], chunk=8)
+    res, errs = pool.map_grouped("harness.checks.estim", "run_one", jobs, key=lambda j: j[0]["args"]["est"], chunk=20)
     for it, msg, tb in errs:
         ck.machinery(f"driver failed on {it[0]['args'] if it else None}: {msg}\n{tb}")
     if errs:
@@ -292,7 +302,8 @@ def run(prop, tier, seed):
 
 def _a(**kw):
     base = dict(est="", alpha="0.05", l1_ratio="0.3", C="1", gamma="3", weights="none", groups="int",
-                positive=False, fit_intercept=True, method="efron", gle=["Quadratic", "L1"], storage="dense")
+                positive=False, fit_intercept=True, method="efron", gle=["Quadratic", "L1"], storage="dense",
+                size="small")
     base.update(kw)
     return base
 
@@ -313,6 +324,15 @@ SENTINELS = [
     dict(args=_a(est="MCPRegression", weights="zeros", gamma="3"), doc=_doc("Quadratic", "WeightedMCPenalty", True)),
     dict(args=_a(est="ElasticNet", l1_ratio="0"), doc=_doc("Quadratic", "L1_plus_L2", True)),
     dict(args=_a(est="WeightedLasso", weights="wrong_length"), doc=_doc("Quadratic", "WeightedL1", True, expect="ValueError")),
+    # more unpenalised features than p0, working set a strict subset of the features
+    dict(args=_a(est="WeightedLasso", weights="zeros", size="wide"), doc=_doc("Quadratic", "WeightedL1", True)),
+    dict(args=_a(est="WeightedLasso", weights="zeros", size="wide", storage="csc", fit_intercept=False),
+         doc=_doc("Quadratic", "WeightedL1", False)),
+    dict(args=_a(est="MCPRegression", weights="zeros", size="wide", alpha="0.3"), doc=_doc("Quadratic", "WeightedMCPenalty", True)),
+    dict(args=_a(est="GeneralizedLinearEstimator", gle=["Quadratic", "WeightedL1"], size="wide"),
+         doc=_doc("Quadratic", "WeightedL1", True)),
+    dict(args=_a(est="Lasso", size="wide", alpha="0.05", storage="csc"), doc=_doc("Quadratic", "L1", True)),
+    dict(args=_a(est="ElasticNet", size="wide", l1_ratio="0.3", positive=True), doc=_doc("Quadratic", "L1_plus_L2", True, True)),
 ]
 
 
